@@ -1,7 +1,7 @@
 """C08 — a logged-in session never stays silent longer than two heartbeat intervals of its own role.
 
 Correspondence: real soup client / soup server / FIX sessions under the virtual-time loop against Model/Monitor.lean
-(driver drv_C08, op `hb.run`): time, kind and liveness of every write and the close time.
+(driver drv_C08, op `hb.run`): time, kind and liveness of every write while the session is alive.
 Oracle (implementation only): the property statement evaluated on the observed writes with the interval of the
 session's *own role* — (a) every window (t, t+2I] before close contains a write, (b) idle periods between ticks get
 exactly one heartbeat, (c) no heartbeat at a tick when the application sent something since the previous tick.
@@ -148,7 +148,9 @@ def check_case(ctx, case, model_line, tag):
         ctx.count('closed:' + (obs['closed'][1] if obs['closed'] else 'no'))
         ctx.count('intervals:' + ('equal' if case['ci'] == case['si'] else 'unequal'))
     fails = oracle(case, obs)
-    if fails:
+    if fails and len(ctx.violations) >= 3:        # enough minimised examples: record the rest as they are
+        mc.report(ctx, f"{case['role']} (client interval {case['ci']}, server interval {case['si']}): {fails[0]}", classify(case, obs, fails))
+    elif fails:
         kind = classify(case, obs, fails)['kind']
 
         def still(c):
@@ -161,9 +163,18 @@ def check_case(ctx, case, model_line, tag):
         rep = classify(small, o2, f2)
         mc.report(ctx, f"{small['role']} (client interval {small['ci']}, server interval {small['si']}): {f2[0]}", rep)
     if model_line is not None:
+        # C08 speaks about the writes while the session is alive; when (and whether) it is closed is C09's observable:
+        # compare every write before the earlier of the two close instants
         m = mc.parse_model(model_line)
-        if mc.canon(obs) != mc.canon(m):
-            ctx.disagree(f"hb.run {describe(case)[:150]}: implementation {json.dumps(mc.canon(obs))[:300]} vs model {json.dumps(mc.canon(m))[:300]}",
+        ci, cm = mc.canon(obs), mc.canon(m)
+        if 'error' in ci or 'error' in cm:
+            same = False
+        else:
+            upto = min(life(ci, case), life(cm, case))
+            same = [w for w in ci['writes'] if w[0] < upto] == [w for w in cm['writes'] if w[0] < upto] \
+                and ci.get('offgrid') == cm.get('offgrid')
+        if not same:
+            ctx.disagree(f"hb.run {describe(case)[:150]}: implementation {json.dumps(ci)[:300]} vs model {json.dumps(cm)[:300]}",
                          dict(case, kind='correspondence'))
     return obs
 
@@ -189,7 +200,7 @@ def run(ctx):
                 cases.append(('exhaustive', c))
     for c in unequal_server_cases(rng, 30 if thorough else 8):
         cases.append(('server-unequal', c))
-    for _ in range(6000 if thorough else 420):
+    for _ in range(20000 if thorough else 1500):
         cases.append(('random', random_case(rng, thorough)))
     lines = [mc.model_request(c) for _, c in cases]
     ans = ctx.driver.ask(lines) if ctx.driver.available else [None] * len(lines)
